@@ -9,10 +9,10 @@ The multivariate statement is assembled per coordinate: a point with one varying
 the matching center `upre ++ a :: upost` with `vpre.length = upre.length` (every coordinate of every vector has this
 form), and `HasDerivAt … t` is the partial derivative at `s = t` with the other coordinates fixed.  Theorems named
 `…_partial` are the per-coordinate parts of the full Fréchet-derivative statement `C04_full`.  `C04_full` is PROVED for
-no transform and for a diagonal transform (`C04_full_no_transform`, `C04_full_diag`: L2, product, Lpq, sum-power; joint
-differentiability from `Lemmas/GradFull.lean`); it stays a `def … : Prop` for a full matrix transform tied to the list
-model and for the memory-light kernel, where the per-coordinate theorems and the chain rule `chain_T_full` are what is
-proved.
+no transform, a diagonal transform and a full symmetric matrix (`C04_full_no_transform`, `C04_full_diag`,
+`C04_full_symm`: L2, product, Lpq, sum-power, `n ≥ 1`; joint differentiability from `Lemmas/GradFull.lean`); it stays a
+`def … : Prop` only because of the memory-light kernel, for which the per-coordinate theorems (no transform = L2, diagonal
+`M`) are what is proved.
 -/
 import Xrfmv.Lemmas.Grad
 import Xrfmv.Lemmas.GradFull
@@ -210,7 +210,7 @@ theorem l2_term_finite (P : Params ℝ) (g : Guards P) (hq : 1 ≤ P.q) (dist δ
     |l2Factor P dist * δ| ≤ P.q / P.L ^ P.q * dist ^ (P.q - 1) :=
   l2_term_bounded P g.L_pos hq dist δ hd hδ
 
-/-! ### the full statement (proved for no transform and a diagonal transform, below) -/
+/-! ### the full statement (proved below for every transform, all kernels but the memory-light one) -/
 
 /-- Gradient vector as a continuous linear functional on `ℝⁿ`. -/
 noncomputable def gradCLM {n : ℕ} (gv : List ℝ) : (Fin n → ℝ) →L[ℝ] ℝ :=
@@ -229,7 +229,7 @@ def GeneralPosition {n : ℕ} (k : Kind) (P : Params ℝ) (T : Transform ℝ) (x
   | .light => P.eps ≤ Real.sqrt (lightSq T (List.ofFn x) (List.ofFn z))
   | _ => ∀ e : Fin n, P.eps ≤ |(applyT T (List.ofFn z)).getD e 0 - (applyT T (List.ofFn x)).getD e 0|
 
-/-- **C04, full strength (proved for `T = none` and `T = diag`, see `C04_full_no_transform` / `C04_full_diag`; not for a full matrix / the light kernel)**: for every kernel, every admissible parameter set and transform, every set of
+/-- **C04, full strength (proved for `T` none / diagonal / full symmetric and every kernel but the memory-light one: `C04_full_no_transform`, `C04_full_diag`, `C04_full_symm`)**: for every kernel, every admissible parameter set and transform, every set of
 centers and coefficient row, at every point in general position the predictor `z ↦ f(z)` of the raw point is Fréchet
 differentiable and the row of the tensor returned by `fgrad` is its gradient. -/
 def C04_full : Prop :=
@@ -345,5 +345,95 @@ theorem C04_full_diag (n : ℕ) [NeZero n] (k : Kind) (hk : k ≠ .light) (P : P
     refine hmain.congr_of_eventuallyEq ?_
     filter_upwards with s
     rw [ofFn_update]
+
+theorem applyT_full_ofFn {n : ℕ} (T : Matrix (Fin n) (Fin n) ℝ) (x : Fin n → ℝ) :
+    applyT (.full (List.ofFn fun i => List.ofFn (T i))) (List.ofFn x) = List.ofFn (Matrix.vecMul x T) := by
+  apply List.ext_getElem?
+  intro i
+  by_cases hi : i < n
+  · have h := applyT_full_entry T x ⟨i, hi⟩
+    simp only at h
+    rw [h, List.getElem?_ofFn]
+    simp [hi]
+  · have hl : (applyT (.full (List.ofFn fun i => List.ofFn (T i))) (List.ofFn x)).length = n := by
+      simp [applyT]
+    rw [List.getElem?_eq_none (by omega), List.getElem?_eq_none (by simp; omega)]
+
+theorem list_eq_ofFn_getD {n : ℕ} (l : List ℝ) (h : l.length = n) : l = List.ofFn fun e : Fin n => l.getD e 0 := by
+  apply List.ext_getElem
+  · simp [h]
+  · intro i h1 h2
+    simp [List.getD_eq_getElem?_getD, List.getElem?_eq_getElem h1]
+
+/-- **C04, full strength with a full symmetric transform (proved; L2, product, Lpq, sum-power)**: the predictor of the raw
+point `z ↦ Σ_i c_i k(x_i T, z T)` is Fréchet differentiable at every point whose image is in general position, and the row
+`(∇f)(zT)·T` returned by `fgrad` (`_transform_m(grads, mat)`) is its gradient.  Differentiability: the no-transform predictor
+composed with `w ↦ wT`; partial derivatives: the chain rule `chain_T_full` applied to `predictor_hasFDerivAt`. -/
+theorem C04_full_symm (n : ℕ) [NeZero n] (k : Kind) (hk : k ≠ .light) (P : Params ℝ) (xs : List (Fin n → ℝ))
+    (c : List ℝ) (z : Fin n → ℝ) (T : Matrix (Fin n) (Fin n) ℝ) (hT : T.IsSymm) (g : Guards P)
+    (hgp : ∀ x ∈ xs, GeneralPosition k P (.full (List.ofFn fun i => List.ofFn (T i))) x z) :
+    HasFDerivAt
+      (fun w : Fin n → ℝ => predictRow k P (.full (List.ofFn fun i => List.ofFn (T i))) (xs.map List.ofFn) c (List.ofFn w))
+      (gradCLM (((fgrad k P (.full (List.ofFn fun i => List.ofFn (T i))) (xs.map List.ofFn) [List.ofFn z] [c]).headD []).headD []))
+      z := by
+  set rows := (List.ofFn fun i => List.ofFn (T i)) with hrows
+  have hp : 0 < P.p := lt_of_lt_of_le g.q_pos g.q_le_p
+  have happ : ∀ x : Fin n → ℝ, applyT (Transform.full rows) (List.ofFn x) = List.ofFn (Matrix.vecMul x T) :=
+    fun x => applyT_full_ofFn T x
+  set us : List (Fin n → ℝ) := xs.map fun x => Matrix.vecMul x T with hus
+  have hGP : ∀ u ∈ us, GeneralPos k P u (Matrix.vecMul z T) := by
+    intro u hu
+    obtain ⟨x, hx, rfl⟩ := List.mem_map.1 hu
+    have h := hgp x hx
+    cases k with
+    | l2 =>
+      refine generalPos_of_dist P _ _ ?_
+      simpa [GeneralPosition, happ] using h
+    | light => exact absurd rfl hk
+    | prod | lpq | sumPower =>
+      refine generalPos_of_coords _ (by constructor <;> simp) P g.eps_pos g.q_pos hp _ _ ?_
+      intro e
+      have he := h e
+      simpa [GeneralPosition, happ, getD_ofFn] using he
+  have hmapT : (xs.map List.ofFn).map (applyT (.full rows)) = us.map List.ofFn := by
+    simp only [hus, List.map_map]
+    apply List.map_congr_left
+    intro x _
+    exact happ x
+  -- the no-transform predictor on the transformed centers
+  set G : (Fin n → ℝ) → ℝ := fun v => fval (kval k P) c (us.map List.ofFn) (List.ofFn v) with hG
+  have hGd := predictor_hasFDerivAt k P g.eps_pos hp g.cmix_nonneg g.cmix_lt_one us c (Matrix.vecMul z T) hGP
+  have hfun : (fun w : Fin n → ℝ => predictRow k P (.full rows) (xs.map List.ofFn) c (List.ofFn w)) =
+      G ∘ fun w : Fin n → ℝ => Matrix.vecMul w T := by
+    funext w
+    cases k <;> first | exact absurd rfl hk | simp only [predictRow, Function.comp, hmapT, happ, hG]
+  -- the returned row is (∇G)(zT)·T
+  set gv := rowGrad (pairGrad k P) c (us.map List.ofFn) (List.ofFn (Matrix.vecMul z T)) with hgv
+  have hgvlen : gv.length = n := by
+    have := (rowGrad_aux (pairGrad k P) (List.ofFn (Matrix.vecMul z T)) 0 c (us.map List.ofFn) (by
+      intro u hu
+      obtain ⟨x, _, rfl⟩ := List.mem_map.1 hu
+      exact pairGrad_length k P _ _ (by simp))).1
+    simpa using this
+  have hrow : ((fgrad k P (.full rows) (xs.map List.ofFn) [List.ofFn z] [c]).headD []).headD [] =
+      List.ofFn (Matrix.vecMul (fun e : Fin n => gv.getD e 0) T) := by
+    have h1 : ((fgrad k P (.full rows) (xs.map List.ofFn) [List.ofFn z] [c]).headD []).headD [] = applyT (.full rows) gv := by
+      cases k <;> first | exact absurd rfl hk | simp [fgrad, hmapT, happ, hgv]
+    rw [h1]
+    conv_lhs => rw [list_eq_ofFn_getD gv hgvlen]
+    rw [happ]
+  rw [hfun, hrow]
+  unfold gradCLM
+  simp only [getD_ofFn]
+  apply hasFDerivAt_of_partials
+  · apply DifferentiableAt.comp
+    · exact hGd.differentiableAt
+    · unfold Matrix.vecMul dotProduct; fun_prop
+  · intro d
+    have hch := chain_T_full T hT G _ z d hGd
+    simp only [Function.comp]
+    convert hch using 2
+    funext e
+    simp [ContinuousLinearMap.sum_apply, Pi.single_apply, hgv]
 
 end Xrfmv.Props.C04
